@@ -54,6 +54,15 @@ def flag_edges(b, ov, name, what_rx):
     return out
 
 
+def _calls_of(e):
+    """callee paths of every call node in an origin tree"""
+    out = []
+    for n in flow.walk(e):
+        if isinstance(n, tuple) and n and n[0] == 'call':
+            out.append(n[1] if isinstance(n[1], str) else str(n[1]))
+    return out
+
+
 def run(ctx, prog):
     ctx.not_decided = ['the arithmetic of the counts over whole histories', 'restart recount equality (needs C11)']
     lm = LockModel(prog)
@@ -394,4 +403,31 @@ def run(ctx, prog):
     from rules import C03 as _C03
     n5 = _C03.no_failure_after_canonical(ctx, prog, 'C14.R5', ('TieredEngine::bulk_load_cold_tier',))
     ctx.floor('C14.R5', 'canonical inserts in bulk_load_cold_tier', n5, 1, 'the per-document insert')
+    # ------------------------------------------------------------------ R6 the quota lock is ONE mutex per tenant
+    ctx.rule('C14.R6', 'C14.R1 reads "the quota lock is held" as mutual exclusion between two requests of one tenant; that needs tenant_quota_lock to hand every caller '
+                       'the SAME mutex for a tenant: every Some(..) it returns is the entry of the tenant_quota_locks map under the tenant\'s id (a lookup, or '
+                       'entry(..).or_insert*), never a mutex created in the function itself, and the function never replaces or removes an entry')
+    ql = ctx.body('C14.R6', 'KyroDBServiceImpl::tenant_quota_lock')
+    if ql is not None:
+        alts = flow.top_alternatives(flow.Origin(ql).of_local(0))
+        somes, bad6 = 0, []
+        for a in alts:
+            r = flow.render(a)
+            if r.startswith('option::Option::Some{'):
+                somes += 1
+                names = set(flow.short(x) for x in _calls_of(a))
+                looked_up = any(re.search(r'HashMap(<.*>)?::get$', n) for n in names)
+                entered = any(re.search(r'HashMap(<.*>)?::entry$', n) for n in names) and any(re.search(r'Entry(<.*>)?::or_(insert_with|insert|default)$', n) for n in names)
+                fresh = any(re.search(r'(Arc|Mutex)(<.*>)?::(new|default)$', n) for n in names) and not entered
+                if not ((looked_up or entered) and 'tenant_quota_locks' in r and 'TenantContext.tenant_id' in r and not fresh):
+                    bad6.append(r[:200])
+            elif 'from_residual' in r or r.startswith('const') or 'Option::None' in r:
+                continue
+            else:
+                bad6.append('unrecognised return alternative: ' + r[:200])
+        repl = [flow.short(c.callee) + ' at ' + c.loc for c in ql.calls if c.callee and re.search(r'HashMap(<.*>)?::(insert|remove|clear|retain|drain)$', flow.short(c.callee))]
+        ctx.inst('C14.R6', 'KyroDBServiceImpl::tenant_quota_lock', 'every returned mutex is the map entry of the tenant id; no entry is replaced or removed',
+                 somes >= 1 and not bad6 and not repl,
+                 '%d Some alternatives; not a map entry under the tenant id: %s; replacing / removing calls: %s' % (somes, bad6, repl))
+        ctx.floor('C14.R6', 'Some(..) alternatives returned by tenant_quota_lock', somes, 2, 'the read-path lookup and the write-path entry')
     ctx.stat('functions_analysed', len(HANDLERS) + 1)
